@@ -86,7 +86,9 @@ Definition append_p_oracle (A B : ptier) (out : res ptier) : bool :=
   | Err _ => false
   | Ok t' =>
       text_eqb (pname t') (pname A)
-      && pents_eqb (pents t') (pents A ++ map (pshift (pmax A)) (pents B))
+      (* A's points followed by B's shifted by A's end; a tier holds its points in (time, label) order, which
+         only matters when A's last point and B's first land on the same time *)
+      && pents_eqb (pents t') (isortp (pents A ++ map (pshift (pmax A)) (pents B)))
       && (pmin t' =? pmin A) && (pmax t' =? pmax A + pmax B)
   end.
 
